@@ -211,6 +211,9 @@ func resultTag(r Result) reflect.StructTag {
 }
 
 func paramType(p Param) reflect.Type {
+	if d, ok := declIns[p.Decl]; ok && p.Decl != "" {
+		return d.RT
+	}
 	if p.isObj() {
 		fields := []reflect.StructField{{Name: "In", Type: inType, Anonymous: true}}
 		for i, q := range p.Obj {
@@ -286,6 +289,16 @@ func fnType(f *Fn) reflect.Type {
 // ---------------------------------------------------------------------------
 
 func decodeArg(p Param, v reflect.Value) Prov {
+	if p.Decl != "" {
+		pr := Prov{Kind: "obj"}
+		for i, q := range declIns[p.Decl].Fields {
+			pr.Fields = append(pr.Fields, decodeArg(q, v.FieldByName(fmt.Sprintf("F%d", i))))
+		}
+		if !unexportedZero(v) {
+			return foreignTree(p) // dig wrote to an unexported field
+		}
+		return pr
+	}
 	if p.isObj() {
 		pr := Prov{Kind: "obj"}
 		for i, q := range p.Obj {
@@ -313,6 +326,18 @@ func decodeArg(p Param, v reflect.Value) Prov {
 		return Prov{Kind: "foreign"}
 	}
 	return Prov{Kind: "single", Tok: tok, Dyn: dynTypeName(v)}
+}
+
+// foreignTree marks every leaf below p as a foreign value.
+func foreignTree(p Param) Prov {
+	if !p.isObj() {
+		return Prov{Kind: "foreign"}
+	}
+	pr := Prov{Kind: "obj"}
+	for _, q := range p.Obj {
+		pr.Fields = append(pr.Fields, foreignTree(q))
+	}
+	return pr
 }
 
 // mkResult builds a value of type t for result spec r (t is taken from the
